@@ -235,6 +235,7 @@ class Consumer(object):
         self._stopping = False  # We're not stopping yet...
         self._shuttingdown = False  # We're not shutting down either
         self._shutdown_d = None  # deferred for tracking shutdown request
+        self._shutdown_limits_retries = False  # did shutdown() bound request_retry_max_attempts?
         self._commit_looper = None  # Looping call for auto-commit
         self._commit_looper_d = None  # Deferred for running looping call
         self._commit_ds = []  # Deferreds to notify when commit completes
@@ -398,6 +399,7 @@ class Consumer(object):
         # don't let commit requests retry forever and prevent shutdown
         if not self.request_retry_max_attempts:
             self.request_retry_max_attempts = 2
+            self._shutdown_limits_retries = True  # undone by stop()
 
         # Create a deferred to track the shutdown
         self._shutdown_d = d = Deferred()
@@ -456,6 +458,10 @@ class Consumer(object):
         # Do we have an auto-commit looping call?
         if self._commit_looper is not None:
             self._commit_looper.stop()
+        if self._shutdown_limits_retries:
+            # shutdown() bounded the retries; a restarted consumer must not inherit that
+            self._shutdown_limits_retries = False
+            self.request_retry_max_attempts = 0
         # Done stopping
         self._stopping = False
         # Keep track of state for debugging
